@@ -187,7 +187,7 @@ Next ==
            rec == [i |-> depth + 1, ev |-> e.ev, args |-> e,
                    res |-> [ok |-> r.ok, err |-> r.err, errc |-> ErrClass(r.err), panic |-> FALSE, feff |-> "", burned |-> "", hookErr |-> r.err,
                            same |-> TRUE, detn |-> 0, det |-> TRUE, detDiff |-> ""],
-                   probes |-> IF e.ev = "BeginBlock" THEN <<>> ELSE SetToSeq1(ModelProbes(post))]
+                   probes |-> IF e.ev = "BeginBlock" THEN <<>> ELSE SetToSeq1(ModelProbes(post)), mirror |-> <<>>]
            gh2 == GhostNext(gh, st, rec, post)
            j == Judge(st, rec, post, gh, gh2)
        IN  /\ (e.ev = "BeginBlock" => post.height <= MaxBlocks + 1)
